@@ -252,6 +252,28 @@ Theorem C15_split_elementary_normal_form : forall ra (site : dof -> Z) (o : op r
 Proof. exact split_elementary_normal_form. Qed.
 Print Assumptions C15_split_elementary_normal_form.
 
+(* ---------------- object identity (round 5) ---------------- *)
+(* adding / subtracting an empty sum gives an equal value; values of the model are immutable, so a faithful
+   implementation has to return a NEW list here -- checked on every run by the aliasing audit of the harness *)
+Theorem C15_add_empty : forall ra (s : list (op ra)),
+  v_add ra (VSum s) (VSum []) = Some (VSum s) /\ v_add ra (VSum s) (VL []) = Some (VSum s)
+  /\ v_sub ra (VSum s) (VSum []) = Some (VSum s) /\ v_add ra (VSum []) (VSum s) = Some (VSum s).
+Proof. exact v_add_empty_r. Qed.
+Print Assumptions C15_add_empty.
+
+(* `a += b` on an OpSum computes what `a + b` computes: in-place mutation is the only difference *)
+Theorem C15_iadd_is_add : forall ra (s : list (op ra)) b, v_iadd ra (VSum s) b = v_add ra (VSum s) b.
+Proof. exact v_iadd_is_add. Qed.
+Print Assumptions C15_iadd_is_add.
+
+(* split_elementary depends on the operator and on dof_to_siteidx restricted to the operator's dofs, on nothing else
+   (no history): equal site maps on these dofs give equal splits *)
+Theorem C15_split_elementary_ext : forall ra (site1 site2 : dof -> Z) (o : op ra),
+  (forall l, In l (word o) -> site1 (l_dof l) = site2 (l_dof l)) ->
+  split_elementary ra site1 o = split_elementary ra site2 o.
+Proof. exact split_elementary_ext. Qed.
+Print Assumptions C15_split_elementary_ext.
+
 (* ---------------- == and hash ---------------- *)
 Theorem C15_eq_hash : forall ra, ralg_ok ra -> forall a b : op ra, op_eqb ra a b = true ->
   forall (H : Type) (h : tuple_t ra -> H), op_hash ra h a = op_hash ra h b.
@@ -316,6 +338,14 @@ Proof. repeat split; reflexivity. Qed.
 Example C15_scale_hypotheses_satisfiable :
   (forall a, rmul ZR a 7 = r0 ZR -> a = r0 ZR) /\ rmul ZR (r0 ZR) 7 = r0 ZR.
 Proof. simpl. split; [intros a H; destruct a; simpl in *; try reflexivity; discriminate|reflexivity]. Qed.
+(* the same operator in two models that group its dofs differently: one site per dof / dofs 0 and 1 on one site *)
+Example C15_split_depends_on_site_map :
+  let o := @mkOp ZR [(2, 0, [1]); (7, 5, [0]); (1, 1, [-1])] 3 in
+  fst (split_elementary ZR (fun d => d) o)
+    = [@mkOp ZR [(2, 0, [1])] 1; @mkOp ZR [(1, 1, [-1])] 1; @mkOp ZR [(7, 5, [0])] 1]
+  /\ fst (split_elementary ZR (fun d => if d <? 2 then 0 else 1) o)
+    = [@mkOp ZR [(2, 0, [1]); (1, 1, [-1])] 1; @mkOp ZR [(7, 5, [0])] 1].
+Proof. split; reflexivity. Qed.
 (* OpSum.product([]) is the empty sum, i.e. it denotes 0 (not the unit): the product theorem is
    stated for non-empty lists *)
 Example C15_empty_product_is_zero : forall ma : malg ZR,
